@@ -47,7 +47,9 @@ add("calc_lr", T + "from_file/calculator.rustemo",
 add("calc_err", T + "errors/syntax_errors/calc.rustemo", sentences=["2 + 3 + 5", "1"], invalid=["2 + 3 / 4 + 5", "2 + 3 + 5 +"])
 add("json", REPO + "/examples/json/src/json.rustemo",
     files=[REPO + f"/examples/json/src/example{i}.json" for i in range(1, 6)] + [T + "builder/loc_info/loc_info.json"],
-    sentences=['{"a": [1, 2, {"b": null}], "c": "x y"}', "[]", "{}", '[true, false, null, 1.5, "s"]'],
+    sentences=['{"a": [1, 2, {"b": null}], "c": "x y"}', "[]", "{}", '[true, false, null, 1.5, "s"]',
+               # a token longer than 50 bytes made of multi-byte characters
+               '{"k": "' + "čžš→" * 12 + '", "n": 1}'],
     invalid=['{"a": }', "[1, 2", '{"a" 1}'],
     w_reason="string regex may contain whitespace only between the quotes it requires")
 
@@ -140,7 +142,10 @@ add("glr_right_nullable", S + "right_nullable/lang.rustemo", algo="glr", sentenc
 add("glr_unbounded_ambiguity", S + "unbounded_ambiguity/lang.rustemo", algo="glr", sentences=["xbbbbx"])
 add("glr_cyclic_1", S + "cyclic_1/lang.rustemo", algo="glr", sentences=["x"], c12="", w=False, cyclic=True)
 add("glr_cyclic_2", S + "cyclic_2/lang.rustemo", algo="glr", sentences=["x"], c12="", w=False, cyclic=True)
-add("glr_issue_16", T + "glr/regressions/issue_16_subtract_overflow_panic/inline.rustemo", algo="glr", sentences=[], c12="", w=False)
+add("glr_issue_16", T + "glr/regressions/issue_16_subtract_overflow_panic/inline.rustemo", algo="glr", sentences=["*ld 2", "plain text", "_em_ and `code`"], c12="", w=False)
+# GLR parsers with a Layout rule (the layout parser lives inside the GLR parser value)
+add("layout_ast_glr", T + "layout/ast/layout.rustemo", algo="glr", sentences=["42 This6 should be 8 ignored 9 ", "1 2 3 4", "7 8 9 1 2"],
+    w=True, w_reason="layout rule: words and whitespace; W uses ASCII whitespace only", w_ascii_only=True)
 add("glr_issue_22", T + "glr/regressions/issue_22_panic_get_conflicts/unreach.rustemo", algo="glr", sentences=[], c12="", w=False)
 
 # ---- harness-authored grammars written for reach (DESIGN.md 4/C15 corpus) ----
@@ -173,7 +178,7 @@ terminals
 Cz: 'čž';
 Arrow: '→';
 Quoted: /"[^"]*"/;
-""", sentences=['čž → "a\nb" čž', '"multi\nline\n→ text" →\nčž', "→→čž"],
+""", sentences=['čž → "a\nb" čž', '"multi\nline\n→ text" →\nčž', "→→čž", 'čž "' + "→é" * 20 + '" →'],
     w_reason="the quoted regex may contain whitespace only between the quotes it requires")
 add("h_ws_regex", None, inline="""S: Part+;
 Part: Words;
@@ -195,6 +200,30 @@ CommentLine: /\\/\\/.*/;
 NotComment: /((\\*[^\\/])|[^\\s*\\/]|\\/[^\\*])+/;
 """, sentences=["1 /* a /* nested */ b */ 2 // line\n3", "/* c */1/* d */2", "1 2 3"],
     w=True, w_reason="layout rule; W uses ASCII whitespace only", w_ascii_only=True)
+
+add("h_nested_comments_glr", None, algo="glr", stem="h_nested_comments", inline=open(os.path.join(OUT, "h_nested_comments", "h_nested_comments.rustemo")).read(),
+    sentences=["1 /* a /* nested */ b */ 2 // line\n3", "/* c */1/* d */2", "1 2 3", "1"],
+    w=True, w_reason="layout rule; W uses ASCII whitespace only", w_ascii_only=True)
+# two tokenisations that reach the SAME LR state at different offsets
+add("h_tokcount_same_state", None, algo="glr", inline="""S: X A Z;
+X: A | AA;
+terminals
+A: 'a';
+AA: 'aa';
+Z: 'z';
+""", sentences=["aaaz", "aaz", "aa a z", "aa\na\n  z"], c12="TG", w=False, most_specific=False, longest_match=False,
+    w_reason="lexical ambiguity with tokens of different lengths")
+add("h_tokcount_nested", None, algo="glr", inline="""S: Item+ End;
+Item: A | AB | ABC | B | C;
+terminals
+A: 'a';
+AB: 'ab';
+ABC: 'abc';
+B: 'b';
+C: 'c';
+End: ';';
+""", sentences=["abc;", "abcabc;", "a b c ab;", "ababc ;"], c12="TG", w=False, most_specific=False, longest_match=False,
+    w_reason="lexical ambiguity with tokens of different lengths")
 
 json.dump({"entries": entries}, open(os.path.join(OUT, "manifest.json"), "w"), indent=1, ensure_ascii=False)
 print(len(entries), "entries")
